@@ -209,6 +209,7 @@ def run(scn):
                 import traceback
                 outcome = "exception"
                 exc = "%s: %s | %s" % (type(e).__name__, str(e)[:200], traceback.format_exc().strip().split("\n")[-3].strip()[:160])
+            S.check_budget()
             ev = list(S.EV)
             rsets, uncon, bounds, btors, draws = S.split_events(ev)
             # element fields each list had during the solve (a random-size list is grown for the solve and trimmed after)
